@@ -13,7 +13,7 @@ ID = 'C02'
 
 FORMS = [w + m for w in ('$', '$$', '$$$') for m in ('', '@0', '@3', '@10', '@-', '@-3', '@98', '@-999')]   # 98.., 999..: wider than the run
 PLAIN = ('$', '$$', '$$$')
-SITES = ('name', 'class', 'attr', 'qattr', 'id', 'text')
+SITES = ('name', 'class', 'attr', 'qattr', 'id', 'text', 'aname')
 TAGS = 'xyzw'
 
 BOUNDS = {
@@ -27,15 +27,15 @@ def describe(tier):
     b = BOUNDS[tier]
     return dict(
         rule='E2: all forests of <= %d repeatable units (element | group, arbitrarily nested%s) x repeat count per unit in '
-             '{none} + %s (product of counts <= %d) x [one site of (%s) carrying one of the %d numbering forms ($,$$,$$$ x '
+             '{none} + %s (product of counts <= %d) x [one site of (%s; aname = the name of a bracket attribute) carrying one of the %d numbering forms ($,$$,$$$ x '
              '-,@0,@3,@10,@-,@-3,@98,@-999) while the other sites carry plain $] plus maxRepeat in %s with forward forms. '
              'State = template x form x site x limit; transition = one production / option toggle.' % (
                  b['units'], '; 3 units with counts %s' % b['counts3'] if b['units3'] else '', b['counts'], b['max_product'],
                  ', '.join(SITES), len(FORMS), b['limits']),
         nontrivial='the template contains at least one repeater with count >= 2 (several numbered copies are compared).',
         bounds=b,
-        assumptions=['`@^` (parent counter), `*0`, bare `*`, reverse numbering under a truncating maxRepeat, `$` in attribute '
-                     'names are left unspecified'],
+        assumptions=['`@^` (parent counter), `*0`, bare `*`, reverse numbering under a truncating maxRepeat, `$` in an attribute name that consists of nothing else '
+                     'is left unspecified'],
         explanation='Each template is rendered to an abbreviation, expanded by emmet.expand (format off) and every substituted '
                     'counter string and the number of copies are compared with the reference unroller.',
     )
@@ -110,8 +110,10 @@ def element_text(tag, forms):
     text = forms['text']
     if forms.get('nested_text'):
         text = 'p{q%sr}s' % text            # the numbering run inside balanced inner braces of the text
-    return '%s%s.c%s[t=%s u="%s"]#i%s{%s%s}' % (tag, forms['name'], forms['class'], forms['attr'], forms['qattr'],
-                                                forms['id'], '$#' if forms.get('placeholder') else '', text)
+    if forms.get('jsx'):
+        tag = tag.upper()                  # a JSX component name (capitalised) is numbered like any other name
+    return '%s%s.c%s[t=%s u="%s" n%s=k]#i%s{%s%s}' % (tag, forms['name'], forms['class'], forms['attr'], forms['qattr'], forms['aname'],
+                                                      forms['id'], '$#' if forms.get('placeholder') else '', text)
 
 
 def render(forest, forms, counter=None):
@@ -188,8 +190,10 @@ def count_units(f):
     return sum(1 + count_units(u[2]) for u in f)
 
 
-def observe(abbr, limit):
+def observe(abbr, limit, jsx=False):
     cfg = {'options': {'output.format': False}}
+    if jsx:
+        cfg['syntax'] = 'jsx'
     if limit is not None:
         cfg['maxRepeat'] = limit
     ev = lex_html(expand(abbr, cfg))
@@ -213,8 +217,10 @@ def compare(exp, obs, forms):
     for a, b in zip(exp, obs):
         if a[0] != b[0]:
             return 'copies:structure', dict(expected=a, actual=b)
-        tag = a[1]
+        tag = a[1].upper() if forms.get('jsx') else a[1]
         if a[0] == 'c':
+            if b[1][:len(tag)] != tag:
+                return 'copies:structure', dict(expected=a, actual=b)
             continue
         rp = a[2]
         want = {}
@@ -229,7 +235,8 @@ def compare(exp, obs, forms):
                 want[site] = fmt(f, rp[0], rp[1])
         got = dict(name=b[1][len(tag):] if b[1].startswith(tag) else None, attr=b[2].get('t'), qattr=b[2].get('u'),
                    text=b[3])
-        c = b[2].get('class')
+        got['aname'] = next((an[1:] for an in b[2] if an.startswith('n')), None)
+        c = b[2].get('className' if forms.get('jsx') else 'class')
         got['class'] = c[1:] if c is not None and c.startswith('c') else None
         i = b[2].get('id')
         got['id'] = i[1:] if i is not None and i.startswith('i') else None
@@ -245,7 +252,7 @@ def check_one(forest, forms, limit):
     abbr = render(forest, forms)
     exp = reference(forest, limit)
     try:
-        obs = observe(abbr, limit)
+        obs = observe(abbr, limit, bool(forms.get('jsx')))
     except Exception as e:
         return abbr, ('exception:%s' % type(e).__name__, str(e)[:200])
     return abbr, compare(exp, obs, forms)
@@ -264,6 +271,12 @@ def variants(limits):
     nb = dict(nb)
     nb['text'] = '$$@-3'
     yield nb, None
+    jx = dict(base)
+    jx['jsx'] = True                  # JSX syntax, capitalised component names
+    yield jx, None
+    jx = dict(jx)
+    jx['name'] = '$$@-'
+    yield jx, None
     for site in SITES:
         for f in FORMS:
             if f == '$':
